@@ -18,7 +18,7 @@ const NoOffset = ^uintptr(0)
 // ---------------------------------------------------------------- C03
 
 type Want3[S any] struct {
-	Key, Name string
+	Key, Name  string
 	Type, Pure reflect.Type
 	Off        func(*S) uintptr
 }
@@ -189,16 +189,16 @@ func Tuples(pools [][]any, n int) []any {
 }
 
 type IsoCase[S, T any] struct {
-	Prop         string
-	C            Case
-	Isos         []optics.Isomorphism[S, T]
-	Morph        func(...optics.Isomorphism[S, T]) optics.Isomorphism[S, T]
-	FillS        func(*S, int)
-	FillT        func(*T, int)
-	ReadS        func(*S) []any
-	ReadT        func(*T) []any
-	RegS         func(*S) []Region
-	RegT         func(*T) []Region
+	Prop  string
+	C     Case
+	Isos  []optics.Isomorphism[S, T]
+	Morph func(...optics.Isomorphism[S, T]) optics.Isomorphism[S, T]
+	FillS func(*S, int)
+	FillT func(*T, int)
+	ReadS func(*S) []any
+	ReadT func(*T) []any
+	RegS  func(*S) []Region
+	RegT  func(*T) []Region
 }
 
 func CheckIso[S, T any](ic IsoCase[S, T]) {
